@@ -233,6 +233,7 @@ class History:
                               else sorted(self.nss))
         if not explicit and self.style == 'star':
             ctx.count('default_namespace_with_catch_all_handlers_only')
+        self.last_req = list(req)
         wait = rng.random() < 0.7
         auth = rng.choice(AUTHS)
         akind = rng.choice(['value', 'callable'] + (
@@ -621,7 +622,16 @@ class History:
                 return self.fail('after reconnection connect handlers ran '
                                  'for %r, accepted %r' % (
                                      cn, sorted(self.accepted)), {'op': op})
-            del req
+            # the automatic reconnection asks for what the application
+            # asked for in its connect() call: no more, no less
+            ctx.count('reconnection_namespace_sets_checked')
+            if req != sorted(self.last_req):
+                return self.fail(
+                    'connect() was called for namespaces %r (handlers are '
+                    'registered for %r); after a transport loss the '
+                    'automatic reconnection sent CONNECT for %r' % (
+                        sorted(self.last_req), sorted(self.nss), req),
+                    {'op': op})
             self.up = True
         else:
             if len(h.attempts) != n_att:
